@@ -86,7 +86,7 @@ def run_job(spec, ctx):
         else:
             vals = O.witness_ranks(eng, n)
             cand = None if vals is None else {'mode': 'vec', 'model': key, 'shape': list(shape), 'selector': selector,
-                                              'vals': O.encode_vals(vals)}
+                                              'vals': O.encode_vals(vals), '__alts__': O.nasty_vectors(n)}
             ctx.ob(f'{selector} with weak order {W}: result differs from canonical ranks', 'sat' if cand else 'unknown', cand)
 
 
